@@ -1,10 +1,14 @@
 #!/bin/sh
-# Build the framework from files on disk only (offline): translator, Lean library + driver, harness.
+# Build the framework from files on disk only (offline): translator, Lean library + drivers, harness.
 set -e
 cd "$(dirname "$0")"
 export CARGO_NET_OFFLINE=true
-(cd harness && cargo build -q -p rs2lean)
+(cd harness && cargo build -q -p rs2lean 2>/dev/null)
 ./harness/target/debug/rs2lean /repo lean/SafeNet/Gen || true
-(cd lean && lake build SafeNet driver)
-(cd harness && cargo build -q --workspace)
+MODS=$(python3 -c "
+import sys; sys.path.insert(0,'checks')
+from props import PROPS
+print(' '.join(sorted({c['props_module'] for c in PROPS.values()} | {k['driver_exe'] for c in PROPS.values() for k in c.get('components',[]) if k.get('driver_exe')})))")
+(cd lean && lake build SafeNet $MODS) || echo "setup: lake build reported errors (checks will report them)"
+(cd harness && cargo build -q --workspace 2>/dev/null) || echo "setup: cargo build reported errors (checks will report them)"
 echo "setup done"
